@@ -57,6 +57,12 @@ def gen_cases(rng, n):
               ("shr", "int", -5, 1), ("shl", "int", -3, 70), ("pow", "int", -3, 5), ("pow", "int", 0, 0),
               ("div", "int", 5, 0), ("mod", "uint", 5, 0), ("shl", "int", 1, -1), ("sub", "uint", 3, 5)]
     cases += corpus
+    # magnitudes of several hundred / a thousand digits, with long runs of zeros inside (a value that is put together from pieces
+    # shows there), below the interpreter's 4300-digit limit for int -> str
+    wide = [10**600, 10**600 + 7, 10**1100 + 10**20, 10**512, 10**512 - 1, 10**1024 + 10**511 + 3, 7 * 10**2000 + 1]
+    cases += [("add", "int", wide[0], 7), ("sub", "int", wide[2], wide[2] - 10**20 - 3), ("mul", "int", 10**300 + 1, 10**300), ("pow", "int", 10, 600),
+              ("add", "uint", wide[3], 0), ("sub", "int", wide[4], -1), ("div", "int", wide[5], 10**511), ("mod", "int", wide[5], 10**512),
+              ("mul", "int", -wide[1], 1), ("shl", "uint", wide[1], 3), ("add", "int", wide[6], wide[0]), ("div", "int", wide[6], -7)]
     while len(cases) < n:
         base = rng.choice(["int", "int", "uint"])
         fam = rng.random()
@@ -188,6 +194,14 @@ def program_level(rng, n_programs):
             items.append((f"Integer({v - 3}) + Integer(3)", Integer(v - 3) + Integer(3), v, "Integer"))
             if v >= 3:
                 items.append((f"UnsignedInteger({v - 3}) + UnsignedInteger(3)", UnsignedInteger(v - 3) + UnsignedInteger(3), v, "UnsignedInteger"))
+        if k % 3 == 0:
+            # literals of several hundred / a thousand digits with long runs of zeros inside, written and folded, two of them
+            # sharing their low digits (what the MIR's literal table says is read back digit by digit)
+            w = rng.choice([10**600, 10**1100 + 10**20, 10**512, 10**1024 + 10**511])
+            items.append((f"Integer(10**{len(str(w)) - 1} …) + Integer(7)", Integer(w) + Integer(7), w + 7, "Integer"))
+            items.append((f"Integer({str(w)[:6]}… ({len(str(w))} digits))", Integer(w), w, "Integer"))
+            items.append((f"UnsignedInteger(10**89) * UnsignedInteger(1)", UnsignedInteger(10**89) * UnsignedInteger(1), 10**89, "UnsignedInteger"))
+            items.append((f"Integer(10**89 + 7)", Integer(10**89 + 7), 10**89 + 7, "Integer"))
         for _ in range(rng.randint(2, 6)):
             fam_k = rng.random()
             if fam_k < 0.5:
